@@ -21,6 +21,9 @@ class HdrMachine(StructMachine):
         super().__init__(prog, K=1)
         self.written = []
 
+    def display_of(self, v, fr):
+        return _display_of(self, v, fr)
+
     def ev_macro(self, e, fr, guard):
         name = e["name"].split("::")[-1]
         if name in ("write", "writeln"):
@@ -34,6 +37,92 @@ class HdrMachine(StructMachine):
                 return Res(True, UNIT, Opaque("fmt::Error"))
             raise Unsupported("write! form")
         return super().ev_macro(e, fr, guard)
+
+
+def display_text(m, prog, val, ty):
+    """the text Display::fmt of `val` writes (z3 string)"""
+    fn = prog.fns.get((ty, "fmt", True))
+    if fn is None:
+        raise Unsupported("no Display impl for %s" % ty)
+    before = len(m.written)
+    m.call_fn(fn[0], [val, StructV("Formatter", {})], True, self_ty=ty)
+    pieces = m.written[before:]
+    del m.written[before:]
+    if not pieces:
+        raise Unsupported("Display of %s writes nothing" % ty)
+    out = z3.StringVal("")
+    for g, piece in pieces:
+        z = to_strz(piece)
+        nxt = z3.Concat(out, z)
+        if is_sym(g):
+            out = z3.If(B(g), nxt, out)
+        elif g:
+            out = nxt
+    return out
+
+
+def _display_of(self, v, fr):
+    vals = []
+    for g, x in alt_of(v):
+        ty = x.name
+        vals.append((g, display_text(self, self.prog, x, ty)))
+    out = vals[-1][1]
+    for g, z in reversed(vals[:-1]):
+        out = z3.If(B(g), z, out) if is_sym(g) else (z if g else out)
+    return StrZ(out)
+
+
+def roundtrip(prog, ty, maxlen, timeout_ms=60000):
+    """parse(Display(parse(s))) == parse(s), Display is a fixed point and reproduces s, for every ASCII string s"""
+    from common import replay_batch
+    from fieldcheck import val_eq
+    res = []
+    t0 = time.time()
+    try:
+        m = HdrMachine(prog)
+        sv = z3.String("hdr_in")
+        m.constraints += [z3.Length(sv) <= maxlen, z3.InRe(sv, z3.Star(z3.Range(" ", "~")))]
+        parse = prog.method(ty, "parse")
+        r1, _ = m.call_fn(parse[0], [StrZ(sv)], True, self_ty=ty)
+        if not isinstance(r1, Res) or r1.val is None:
+            raise Unsupported("parse did not return a Result with a value")
+        o1 = _display_of(m, r1.val, None).s
+    except Unsupported as e:
+        return [{"type": ty, "query": "round trip", "verdict": "not-encoded", "detail": str(e)[:300], "time_s": 0}]
+    # documented shapes of block 2: input 17 chars, or 18 / 21 with an alphanumeric monitoring code; output 46 or 47
+    code17 = z3.StrToCode(z3.SubString(sv, 17, 1))
+    alnum17 = z3.Or(z3.And(code17 >= 48, code17 <= 57), z3.And(code17 >= 65, code17 <= 90), z3.And(code17 >= 97, code17 <= 122))
+    documented = z3.Or(z3.And(z3.PrefixOf(z3.StringVal("I"), sv), z3.Or(z3.Length(sv) == 17, z3.And(z3.Or(z3.Length(sv) == 18, z3.Length(sv) == 21), alnum17))),
+                       z3.And(z3.PrefixOf(z3.StringVal("O"), sv), z3.Or(z3.Length(sv) == 46, z3.Length(sv) == 47))) if ty == "ApplicationHeader" else z3.BoolVal(True)
+    # Display(parse(s)) == s for every accepted s implies the re-parse equality and the fixed point
+    if ty == "ApplicationHeader":
+        queries = [("Display(parse(s)) reproduces s for documented %d-character blocks" % L, z3.And(documented, z3.Length(sv) == L, o1 != sv), None)
+                   for L in (17, 18, 21, 46, 47)]
+    else:
+        queries = [("Display(parse(s)) reproduces s (hence re-parse equal, fixed point)", z3.And(documented, o1 != sv), None)]
+    if ty == "ApplicationHeader":
+        queries.append(("accepted block 2 has a documented shape (nothing trailing is ignored)", z3.Not(documented), "undocumented-shape"))
+    for name, viol, tagk in queries:
+        s = z3.Solver()
+        s.set("timeout", timeout_ms)
+        s.add(*m.constraints)
+        s.add(B(r1.ok), viol)
+        t1 = time.time()
+        r = s.check()
+        rec = {"type": ty, "query": name, "verdict": str(r), "time_s": round(time.time() - t1, 2), "tag": tagk}
+        if r == z3.sat:
+            text = structsym._zstr(s.model().eval(sv, model_completion=True))
+            real = replay_batch([{"op": "header_roundtrip", "type": ty, "text": text}], "dev")[0]
+            rec["witness"] = {"type": ty, "text": text, "real": real}
+            if real.get("ok") and (real.get("text") != text or not real.get("reparse_equal") or real.get("text2") != real.get("text")):
+                rec["witness"]["why"] = "%s %r is accepted and written back as %r (re-parse equal: %s)" % (ty, text, real.get("text"), real.get("reparse_equal"))
+            elif real.get("ok"):
+                rec["verdict"] = "sat-not-reproduced"
+            else:
+                rec["verdict"] = "sat-not-reproduced"
+                rec["detail"] = "real parser rejects the witness"
+        res.append(rec)
+    return res
 
 
 def contains_lit(term, lit):
@@ -141,6 +230,8 @@ def run(timeout_ms=60000):
                     rec["verdict"] = "sat-not-replayable"
                     rec["detail"] = str(real)[:200]
             res.append(rec)
+    for ty, maxlen in (("BasicHeader", 26), ("ApplicationHeader", 48)):
+        res += roundtrip(prog, ty, maxlen)
     return res
 
 
